@@ -31,7 +31,8 @@ Deviations == { "StaleProbeReinserts",  \* a probe of a replaced target object r
                 "NoWakeOnClose",        \* Close does not release waiters
                 "WaitAfterClose",       \* a caller registers as waiter after Close
                 "TimeoutLeaks",         \* timeout leaves the waiter in the table
-                "DetectNoWake" }        \* detector tick does not wake waiters
+                "DetectNoWake",         \* detector tick does not wake waiters
+                "SpuriousRebuild" }     \* check rebuilds the live list (new order, cursor reset) although the live set did not change
 ASSUME Dev \subseteq Deviations
 DevChoice(d) == IF d \in Dev THEN (IF DevForced THEN {TRUE} ELSE BOOLEAN) ELSE {FALSE}
 NoAddr == "none"
@@ -118,11 +119,11 @@ ProbeEffect(a, g, dReinsert, dNoWake) ==
        /\ talive' = ta
        /\ lat' = [x \in Addrs |-> IF x \in targets /\ ~ta[x] THEN MaxLat ELSE lat[x]]
        /\ IF live # {}
-            THEN /\ IF live # lastSet
+            THEN /\ IF live # lastSet \/ "SpuriousRebuild" \in Dev
                       THEN /\ lastSet' = live
                            /\ list' \in Perms(live)
                            /\ pos' = 0
-                           /\ rrHist' = <<>>
+                           /\ rrHist' = IF live # lastSet THEN <<>> ELSE rrHist     \* the history restarts with a new live *set*
                       ELSE UNCHANGED <<lastSet, list, pos, rrHist>>
                  /\ IF fallback = 0 /\ ~dNoWake
                       THEN /\ cst' = Woken(waiters) /\ waiters' = {}
